@@ -122,6 +122,48 @@ def build(run):
                 return out
             laws(f"_cmp_multi_index/{'-'.join(''.join(k) for k in ks)}", SRT._cmp_multi_index, mk)
     contracts[SRT._cmp_multi_index] = 1
+
+    # discrimination: _cmp_multi_index may answer 0 only for multi-indices that agree in length, in which positions are fixed, and in every fixed value
+    # (i.e. that differ at most in the NUMBERS of their free indices) -- otherwise distinguishable operands keep the caller's order
+    def discriminates():
+        from ufv.symx import prove as sprove
+        n = 0
+        for la, lb in itertools.product((1, 2, 3), repeat=2):
+            for kinds in itertools.product("fi", repeat=la + lb):
+                ka, kb = kinds[:la], kinds[la:]
+
+                def mk2():
+                    return [types.SimpleNamespace(_indices=tuple(fixed(SymInt(f"{who}v{p}")) if k == "f" else Index(count=SymInt(f"{who}c{p}")) for p, k in enumerate(kk)))
+                            for who, kk in (("a", ka), ("b", kb))]
+                holder = {}
+
+                def fn():
+                    A, B = mk2()
+                    holder["ab"] = (A, B)
+                    return SRT._cmp_multi_index(A, B)
+                paths, complete = explore(fn, lambda: ())
+                if not complete:
+                    return undecided("path cap")
+                for p in paths:
+                    if p.kind == "exc":
+                        return undecided(f"comparator raised {p.value}")
+                    if p.value != 0:
+                        continue
+                    n += 1
+                    if la != lb or any(x != y for x, y in zip(ka, kb)):
+                        return violated(f"_cmp_multi_index answers 0 for multi-indices of kinds {''.join(ka)} vs {''.join(kb)} (f = fixed, i = free): they are distinguishable "
+                                        "without comparing index numbers", replay={"kinds": [''.join(ka), ''.join(kb)]}, reproduced=False, backend="z3")
+                    A, B = holder["ab"]
+                    claims = [x._value.t == y._value.t for x, y, k in zip(A._indices, B._indices, ka) if k == "f"]
+                    if claims:
+                        st, model = sprove(list(p.pc), z3.And(*claims))
+                        if st == "refuted":
+                            return violated(f"_cmp_multi_index answers 0 for multi-indices {''.join(ka)} vs {''.join(kb)} that differ in a fixed index value: {model}",
+                                            replay={"kinds": [''.join(ka), ''.join(kb)], "model": model}, reproduced=False, backend="z3")
+                        if st != "proved":
+                            return undecided("z3 unknown")
+        return proved("z3(path-exhaustive)", vcs=n, sample=f"{n} zero-result paths: equal length, equal fixed pattern, equal fixed values")
+    run.add("comparator-laws/_cmp_multi_index/zero-only-up-to-free-index-numbers", discriminates, kind="proof")
     if hasattr(SRT, "_cmp_zero"):
         for lens in itertools.product((0, 1, 2), repeat=3):
             def mkz(lens=lens):
@@ -183,6 +225,7 @@ def build(run):
         x = ufl.SpatialCoordinate(m)
         scal = [f, g, c1, c2, v, C.IntValue(2), C.FloatValue(0.5), x[0], x[1], u[0], u[1], w[0], ufl.CellVolume(m), ufl.CellVolume(m2), ufl.Circumradius(m),
                 u[i] * w[i], u[j] * w[j], A[i, i], A[0, 1], ufl.FacetNormal(m)[0]]
+        open_idx = [A[i, 0], A[j, 1], A[i, 1], A[0, i], A[1, j], u[i], w[j]]       # operands with free indices: differ in a fixed index after / before a free one
         lvl1 = []
         for a, b in itertools.product(scal[:9], repeat=2):
             lvl1 += [C.Division(a, b)]
@@ -192,7 +235,8 @@ def build(run):
         lvl1 += [C.ExprList(f), C.ExprList(f, g), C.ExprList(g, f, c1), ufl.diff(f * g, ufl.variable(f)) if False else f * g, f + g, g * c1, f * f, (f + g) * (f + c1)]
         tens = [u, w, A, B, ufl.as_vector([f, g]), ufl.as_vector([g, f]), ufl.as_vector([f, g, c1]), ufl.grad(f), ufl.grad(g), ufl.grad(u), A.T, ufl.as_tensor(A[i, j], (j, i)),
                 ufl.as_tensor(A[j, i], (i, j)), x, ufl.FacetNormal(m), 2 * u, ufl.outer(u, w), ufl.outer(w, u), C.Identity(2), ufl.as_vector(u[i] * A[i, j], j)]
-        return [e for e in scal + lvl1 if isinstance(e, C.Expr)], tens
+        tens += [ufl.as_tensor(A[i, 0], (i,)), ufl.as_tensor(A[j, 1], (j,)), ufl.as_tensor(A[0, i], (i,))]
+        return [e for e in scal + lvl1 + open_idx if isinstance(e, C.Expr)], tens
 
     def tokens(e):
         """Spec serialisation: first-difference order of cmp_expr."""
@@ -316,6 +360,10 @@ def build(run):
     ctor("Sum", lambda a, b: C.Sum(a, b), lambda s, t: [e for e in s if free(e)])
     ctor("Sum(tensors)", lambda a, b: C.Sum(a, b), lambda s, t: [e for e in t if e.ufl_shape == (2,)])
     ctor("Product", lambda a, b: C.Product(a, b), lambda s, t: [e for e in s if free(e)])
+
+    def open_pool(s_, t_):
+        return [e for e in s_ if isinstance(e, C.Indexed) and e.ufl_free_indices and len(e.ufl_free_indices) == 1]
+    ctor("Product(operands with free indices)", lambda a, b: C.Product(a, b) if a.ufl_free_indices != b.ufl_free_indices else (_ for _ in ()).throw(ValueError("same index")), open_pool)
     ctor("Inner", lambda a, b: C.Inner(a, b), lambda s, t: [e for e in t if e.ufl_shape == (2,)] + [e for e in t if e.ufl_shape == (2, 2)], inner=True)
     ctor("operator +", lambda a, b: a + b, lambda s, t: [e for e in s if free(e)])
     ctor("operator *", lambda a, b: a * b, lambda s, t: [e for e in s if free(e)])
